@@ -74,7 +74,7 @@ func (y *yieldCache) Store(k, v interface{}) {
 func init() {
 	core.Register(&core.Prop{
 		ID: "C11",
-		Rule: "2-32 goroutines each execute a stream of 300-3000 heterogeneous calls (Struct, ValidateStruct under three tag names, StructForFn, StructForFns with per-call functions, NestedStructForRule, either/botheq groups, Var, VarForFn, Map, MapFn, Url, GetOnlyExplainErr, GetDumpStructStr, one-off cold types) on independent inputs of shared and private struct types, released together on a cold type cache; process configurations: default cache, and NewLRU(2) behind a wrapper that yields between a Load miss and the following Store; GOMAXPROCS 2/4/16. " +
+		Rule: "2-32 goroutines each execute a stream of 300-3000 heterogeneous calls (Struct, ValidateStruct under three tag names, StructForFn, StructForFns with per-call functions, NestedStructForRule, either/botheq groups, Var, VarForFn, Map, MapFn, Url, GetOnlyExplainErr, GetDumpStructStr, one-off cold types) on independent inputs of shared and private struct types, released together on a cold type cache; process configurations: default cache, and NewLRU(2) behind a wrapper that yields between a Load miss and the following Store; GOMAXPROCS 2/4/16; plus 8 (thorough: 40) cold-start processes whose very first library calls are made by 8-32 goroutines at once. " +
 			"Every call's concurrent result must equal its solo result (executed alone afterwards); any race-detector report with a library frame, panic, fatal error or hang inside the library is a violation. distinct = distinct (goroutine, call) executions with a non-nil result; non-trivial = call ran while >= 2 calls were in flight",
 		Parent: parentC11,
 		Run:    runC11,
@@ -115,6 +115,15 @@ func parentC11(p *core.ParentCtx) *core.Result {
 	for i, c := range cfgs {
 		specs = append(specs, core.ChildSpec{Shard: i, Of: len(cfgs), Mode: "stream", Args: map[string]string{"cache": c.cache, "procs": c.procs, "g": c.g}})
 	}
+	// cold starts: fresh processes whose very first library calls are made by many goroutines at
+	// once (whatever the library sets up lazily on first use is set up under contention)
+	nCold := 8
+	if p.Tier == core.Thorough {
+		nCold = 40
+	}
+	for i := 0; i < nCold; i++ {
+		specs = append(specs, core.ChildSpec{Shard: len(cfgs) + i, Of: len(cfgs) + nCold, Mode: "coldstart", Args: map[string]string{"cache": "default", "procs": []string{"16", "4", "2"}[i%3], "g": []string{"16", "32", "8"}[i%3], "first": []string{"struct", "mixed", "var-map-url"}[i%3]}})
+	}
 	// children one after the other in groups of 2: a child with GOMAXPROCS=16 should really get its cores
 	outs := p.Spawn(specs, 2)
 	for _, oc := range outs {
@@ -142,6 +151,10 @@ func runC11(c *core.Ctx) {
 	if G < 2 {
 		G = 2
 	}
+	if c.Mode == "coldstart" {
+		c11ColdStart(c, G)
+		return
+	}
 	var yc *yieldCache
 	if c.Args["cache"] == "lru2yield" {
 		yc = &yieldCache{inner: valid.NewLRU(2), pending: map[interface{}]int{}, yieldPct: 60}
@@ -165,6 +178,72 @@ func runC11(c *core.Ctx) {
 		res.Count("cache_misses", yc.miss)
 		res.Count("cache_hits", yc.hit)
 		res.Count("cache_stores", yc.store)
+	}
+}
+
+// c11ColdStart: nothing of the library has run in this process yet. G goroutines make its first
+// calls at the same instant (struct validations of named types under several tag names, or Var / Map
+// / Url calls, or a mix); afterwards the same calls are made alone and must give the same results.
+func c11ColdStart(c *core.Ctx, G int) {
+	res := c.Res
+	rng := rand.New(rand.NewSource(c.Seed*31 + int64(c.Shard)))
+	type job struct {
+		desc string
+		run  func() string
+	}
+	mk := func(g int) job {
+		kind := c.Args["first"]
+		if kind == "mixed" {
+			kind = []string{"struct", "var-map-url"}[g%2]
+		}
+		if kind == "struct" {
+			t := namedTypesNoMap[rng.Intn(len(namedTypesNoMap))]
+			tag := c08Tags[rng.Intn(len(c08Tags))]
+			v := ptrTo(tunedFill(rng, t, tag, 0.15)).Interface()
+			return job{"ValidateStruct(" + t.Name() + "," + tag + ")", func() string { return normErr(drive.Call(func() error { return valid.ValidateStruct(v, tag) })) }}
+		}
+		switch g % 3 {
+		case 0:
+			return job{"Var", func() string { return normErr(drive.Call(func() error { return valid.Var("abcdef", "to=1~3|m_v", "phone|m_p") })) }}
+		case 1:
+			return job{"Map", func() string {
+				return normErr(drive.Call(func() error { return valid.Map(map[string]string{"a": "", "b": "xx"}, valid.RM{"a": "required|m_a", "b": "int|m_b"}) }))
+			}}
+		}
+		return job{"Url", func() string {
+			return normErr(drive.Call(func() error { return valid.Url("http://h.example/p?a=&b=xx", valid.RM{"a": "required|m_a", "b": "int|m_b"}) }))
+		}}
+	}
+	jobs := make([]job, G)
+	for g := range jobs {
+		jobs[g] = mk(g)
+	}
+	out := make([]string, G)
+	start := make(chan struct{})
+	var wg sync.WaitGroup
+	for g := 0; g < G; g++ {
+		wg.Add(1)
+		go func(g int) {
+			defer wg.Done()
+			<-start
+			out[g] = jobs[g].run()
+		}(g)
+	}
+	close(start)
+	wg.Wait()
+	res.Count("cold_start_processes")
+	for g := 0; g < G; g++ {
+		res.Eval()
+		res.Count("cold_start_first_calls")
+		solo := jobs[g].run()
+		res.Distinct(fmt.Sprintf("cold|%d|%d|%s", c.Shard, g, jobs[g].desc))
+		if out[g] != solo {
+			res.Violate("C11|differs-from-solo|cold-start", fmt.Sprintf("first calls of a fresh process made by %d goroutines at once: %s returned %q, alone it returns %q", G, jobs[g].desc, trunc(out[g], 300), trunc(solo, 300)),
+				map[string]interface{}{"call": jobs[g].desc, "concurrent": out[g], "solo": solo, "goroutines": G})
+		}
+	}
+	if c.Shard%3 == 0 {
+		res.Sample("cold-start", 1, map[string]interface{}{"goroutines": G, "first_calls": c.Args["first"], "example": jobs[0].desc, "result": trunc(out[0], 200)})
 	}
 }
 
